@@ -209,6 +209,43 @@ def model_digest(accessories):
     return out
 
 
+INPUT_FIELDS = {"perms": "perms", "format": "format", "minValue": "minValue", "maxValue": "maxValue", "minStep": "minStep",
+                "valid-values": "valid_values", "unit": "unit", "handle": "handle", "broadcast_events": "broadcast_events",
+                "disconnected_events": "disconnected_events"}
+
+
+def check_against_input(entity_map, accessories):
+    """Ground truth = the entity map that was stored: every field it states must be what the reloaded model holds."""
+    from aiohomekit.uuid import normalize_uuid
+
+    for acc in entity_map:
+        macc = accessories.aid(acc["aid"])
+        for svc in acc["services"]:
+            msvc = macc.services.iid(svc["iid"])
+            if msvc.type != normalize_uuid(svc["type"]):
+                return f"service {svc['iid']} type {msvc.type} != {svc['type']}"
+            want_links = sorted({x for x in svc.get("linked", []) if x})
+            if sorted(s.iid for s in msvc.linked) != want_links:
+                return f"service {svc['iid']} links {sorted(s.iid for s in msvc.linked)} != {want_links}"
+            for ch in svc["characteristics"]:
+                mch = macc.characteristics.iid(ch["iid"])
+                if mch is None or mch.type != normalize_uuid(ch["type"]):
+                    return f"characteristic {ch['iid']} missing or type differs"
+                for key, attr in INPUT_FIELDS.items():
+                    if key in ch:
+                        want = ch[key]
+                        got = getattr(mch, attr)
+                        if key == "unit":
+                            want, got = want or None, got or None
+                        if got != want:
+                            return f"characteristic {acc['aid']}.{ch['iid']} field {key}: stored {want!r}, reloaded {got!r}"
+                if ch.get("value") is not None and "pr" in ch["perms"]:
+                    want = bool(ch["value"]) if ch.get("format") == "bool" else ch["value"]
+                    if mch._value != want:
+                        return f"characteristic {acc['aid']}.{ch['iid']} value: stored {want!r}, reloaded {mch._value!r}"
+    return None
+
+
 def database_roundtrip(ctx, entity_map, label, rng, transport="IP") -> None:
     from aiohomekit.characteristic_cache import CharacteristicCacheFile
     from aiohomekit.model import Accessories
@@ -247,6 +284,10 @@ def database_roundtrip(ctx, entity_map, label, rng, transport="IP") -> None:
         if before != after:
             diff = next((b, a) for b, a in zip(before, after) if b != a) if len(before) == len(after) else ("length", len(before), len(after))
             ctx.violation("database-field-changed-by-restart", f"{label}: {str(diff)[:400]}", replay)
+            return
+        problem = check_against_input(entity_map, p2.accessories)
+        if problem:
+            ctx.violation("database-field-differs-from-stored-input", f"{label}: {problem}", replay)
             return
         if (p2.config_num, p2.state_num, p2.broadcast_key) != (config_num, state_num, bkey):
             ctx.violation("database-numbers-or-key-changed", f"{label}: config/state/broadcast key {(p2.config_num, p2.state_num, p2.broadcast_key)} != {(config_num, state_num, bkey)}", replay)
